@@ -55,6 +55,8 @@ class DaemonsMemory:
     last_seen_essence: bodies.BodyEssence | None = None  # to notice the reverted changes too
     forever_stopped: set[ids.HandlerId] = dataclasses.field(default_factory=set)
     running_daemons: dict[ids.HandlerId, Daemon] = dataclasses.field(default_factory=dict)
+    object_gone: bool = False  # the object is deleted for sure: nothing is (re-)spawned for it.
+    final_stoppers: set[aiotasks.Task] = dataclasses.field(default_factory=set)
 
 
 class DaemonsMemoriesIterator(metaclass=abc.ABCMeta):
@@ -87,6 +89,8 @@ async def spawn_daemons(
     """
     if memory.live_fresh_body is None:  # for type-checking; "not None" is ensured in processing.
         raise RuntimeError("A daemon is spawned with None as body. This is a bug. Please report.")
+    if memory.object_gone:
+        return []
     for handler in handlers:
         if handler.id not in daemons:
             stopper = stoppers.DaemonStopper()
@@ -364,6 +368,34 @@ async def daemon_killer(
                         reason=stoppers.DaemonStoppingReason.OPERATOR_EXITING))
         await scheduler.wait()  # prevent insta-cancelling our own coros (daemon stoppers).
         await scheduler.close()
+
+
+async def stop_daemons_of_gone_object(
+        *,
+        settings: configuration.OperatorSettings,
+        memory: DaemonsMemory,
+) -> None:
+    """
+    Stop all daemons & timers of an object that has just disappeared.
+
+    Normally, the daemons are stopped while the object is marked for deletion
+    and blocked by the finalizer. But the object can also disappear without
+    that: if it is deleted before the finalizer is added, or if the finalizer
+    is removed by force. The resource's memory is forgotten at that moment,
+    there will be no more handling cycles for it, and the daemon killer
+    will not see it either. So, the daemons are stopped the same way
+    as when the operator exits: in memory, linearly, in the background.
+    """
+    memory.object_gone = True
+    for daemon in list(memory.running_daemons.values()):
+        task = asyncio.create_task(
+            name=f"final stopper of {daemon}",
+            coro=stop_daemon(
+                settings=settings,
+                daemon=daemon,
+                reason=stoppers.DaemonStoppingReason.RESOURCE_DELETED))
+        memory.final_stoppers.add(task)  # keep a reference while it runs.
+        task.add_done_callback(memory.final_stoppers.discard)
 
 
 async def stop_daemon(
